@@ -81,6 +81,22 @@ def extract() -> dict:
                     for c in ast.walk(f):
                         if isinstance(c, ast.Call) and isinstance(c.func, ast.Attribute) and c.func.attr == "replace":
                             t["list_replace"] = [a.value for a in c.args if isinstance(a, ast.Constant)]
+    # typed accessors: default patterns and formats, the registered enumerations
+    E = C.ConfigurationEntry
+    t["fmt_date"], t["fmt_datetime"] = C.FMT_date, C.FMT_datetime
+    t["date_default"] = inspect.signature(E.as_date).parameters["format"].default
+    t["datetime_default"] = inspect.signature(E.as_datetime).parameters["format"].default
+    t["split_defaults"] = [
+        ("as_list.split_re", inspect.signature(E.as_list).parameters["split_re"].default),
+        ("as_tuple.split_re", inspect.signature(E.as_tuple).parameters["split_re"].default),
+        ("as_dict.item_split_re", inspect.signature(E.as_dict).parameters["item_split_re"].default),
+        ("as_dict.key_value_split_re", inspect.signature(E.as_dict).parameters["key_value_split_re"].default),
+    ]
+    t["maxsplit_defaults"] = [(n, int(inspect.signature(getattr(E, n)).parameters["maxsplit"].default))
+                              for n in ("as_list", "as_tuple", "as_dict")]
+    from midgard.collections import enums
+
+    t["enums"] = [(name, [(k, v.name) for k, v in cls.__members__.items()]) for name, cls in enums._ENUMS.items()]
     return t
 
 
@@ -109,6 +125,21 @@ def render(t: dict) -> str:
         "",
         "/-- arguments of the `str.replace` in the `list` accessor -/",
         "def listReplace : List String := [" + ", ".join(q(x) for x in t["list_replace"]) + "]",
+        "",
+        "/-- `FMT_date`, `FMT_datetime` and the default `format` of `as_date` / `as_datetime` -/",
+        f"def fmtDate : String := {q(t['fmt_date'])}",
+        f"def fmtDatetime : String := {q(t['fmt_datetime'])}",
+        f"def asDateDefault : String := {q(t['date_default'])}",
+        f"def asDatetimeDefault : String := {q(t['datetime_default'])}",
+        "",
+        "/-- default regular expressions / `maxsplit` of `as_list`, `as_tuple`, `as_dict` -/",
+        "def splitDefaults : List (String × String) := [" + ", ".join(f"({q(a)}, {q(b)})" for a, b in t["split_defaults"]) + "]",
+        "def maxsplitDefaults : List (String × Nat) := [" + ", ".join(f"({q(a)}, {b})" for a, b in t["maxsplit_defaults"]) + "]",
+        "",
+        "/-- `midgard.collections.enums._ENUMS`: registered name → `__members__` as (name, name of the member it stands for) -/",
+        "def enumTable : List (String × List (String × String)) := [",
+        ",\n".join("  (" + q(n) + ", [" + ", ".join(f"({q(a)}, {q(b)})" for a, b in ms) + "])" for n, ms in t["enums"]),
+        "]",
         "",
         "end Midgard.Generated.ConfigTables",
         "",
